@@ -7,6 +7,7 @@ package link
 import (
 	"errors"
 	"io"
+	"os"
 	"sort"
 	"sync"
 )
@@ -40,6 +41,13 @@ type dir struct {
 	// transfer only a part of their bytes and report shortErr
 	shortFrom, shortCount int
 	shortErr              error
+
+	// fault: read deadlines. When the reader stands at one of these offsets the
+	// next Read reports a timeout once without data (a Read never crosses such
+	// an offset); the stream goes on afterwards, as on a connection whose read
+	// deadline is renewed.
+	timeouts      []int
+	timeoutsFired int
 }
 
 // ErrInjectedWrite is returned by a Write that was selected to fail.
@@ -99,6 +107,23 @@ func (e *End) SetSchedule(s Schedule) {
 	e.in.every = s.Every
 }
 
+// ReadTimeoutsAt makes the reader at this end meet an expired read deadline
+// when it stands at each of the given stream offsets: one Read there returns
+// (0, os.ErrDeadlineExceeded), the next ones deliver again.
+func (e *End) ReadTimeoutsAt(offsets ...int) {
+	e.in.mu.Lock()
+	defer e.in.mu.Unlock()
+	e.in.timeouts = append([]int(nil), offsets...)
+	sort.Ints(e.in.timeouts)
+}
+
+// TimeoutsFired is the number of read timeouts reported at this end so far.
+func (e *End) TimeoutsFired() int {
+	e.in.mu.Lock()
+	defer e.in.mu.Unlock()
+	return e.in.timeoutsFired
+}
+
 // Write sends p; each call is recorded as one write boundary.
 func (e *End) Write(p []byte) (int, error) {
 	d := e.out
@@ -146,6 +171,11 @@ func (e *End) Read(p []byte) (int, error) {
 	if d.rclosed {
 		return 0, io.ErrClosedPipe
 	}
+	if len(d.timeouts) > 0 && d.timeouts[0] == d.rpos {
+		d.timeouts = d.timeouts[1:]
+		d.timeoutsFired++
+		return 0, os.ErrDeadlineExceeded
+	}
 	if d.rpos >= len(d.data) {
 		if d.wclosed {
 			return 0, io.EOF
@@ -153,6 +183,9 @@ func (e *End) Read(p []byte) (int, error) {
 		return 0, ErrStarved
 	}
 	end := len(d.data)
+	if i := sort.SearchInts(d.timeouts, d.rpos+1); i < len(d.timeouts) && d.timeouts[i] < end {
+		end = d.timeouts[i]
+	}
 	if d.rpos+len(p) < end {
 		end = d.rpos + len(p)
 	}
